@@ -1,8 +1,6 @@
 import CatiiProofs.IndxTop
 import CatiiProofs.AppendOnly
 import CatiiModel.Gen.IndxFileOps
-import CatiiProofs.IndxSaveGen
-import CatiiProofs.IndxLoadGen
 /-!
 # C12 — a torn INDX file is always rejected
 
@@ -43,16 +41,8 @@ theorem torn_file_never_loads (es : List Entry) (c : Nat) (b : Bytes) (hs : save
   obtain ⟨e, he, _⟩ := torn_file_rejected es c b hs k hk
   rw [hr] at he; cases he
 
-/-- **on the programs regenerated from the source**: what the current writer's writes put into a file, cut at ANY byte short of
-the end, makes the current loader's reads fail (header, version, short size word, or the mapping of 16 + size bytes) -/
-theorem generated_reader_rejects_every_prefix (es : List Entry) (c : Nat) (h : InScope es c) (k : Nat)
-    (hk : k < (runW ⟨es, c, arityOf es, indexWordSize es c, 4,
-      Gen.bufferSizeGen es.length (arityOf es) (indexWordSize es c) 4 (es.map (·.rowids.length)).sum⟩ Gen.saveProgram).length) :
-    ∃ e, runR Gen.loadProgram ((runW ⟨es, c, arityOf es, indexWordSize es c, 4,
-      Gen.bufferSizeGen es.length (arityOf es) (indexWordSize es c) 4 (es.map (·.rowids.length)).sum⟩ Gen.saveProgram).take k)
-        = .error e ∧ TornErr e := by
-  rw [runR_loadProgram]
-  exact torn_file_rejected es c _ (generated_writer_is_save es c h) k hk
+/-! The same statement on the write / read PROGRAMS regenerated from the current source is
+`C11.generated_reader_rejects_every_prefix` (kept with C11: those programs are tied to the documented layout). -/
 
 /-- the writer touches its file object through `f.write(...)`, `array.tofile(f)` and `f.tell()` only (regenerated) -/
 theorem save_is_append_only :
